@@ -1089,6 +1089,7 @@ func (h *c18hist) genNav() {
 	m := pick(h.r, []string{"base", "len", "cap", "real", "imag", "idx", "fld", "deref"})
 	idx, fld := 0, "a"
 	negArr := false
+	nearMiss := false
 	if sh.t != nil && !bad {
 		switch sh.t.k {
 		case "slice":
@@ -1110,6 +1111,24 @@ func (h *c18hist) genNav() {
 	} else {
 		idx = h.r.intn(6)
 		fld = pick(h.r, []string{"a", "b", "c", "zz"})
+		if sh.t != nil && h.r.chance(1, 2) {
+			// near miss: the selector that is valid on a *similar* kind, and the result is used right away
+			switch sh.t.k {
+			case "str":
+				m = "cap"
+			case "slice":
+				m = pick(h.r, []string{"real", "idx"})
+			case "complex":
+				m = pick(h.r, []string{"len", "base"})
+			case "arr":
+				m = pick(h.r, []string{"len", "fld"})
+			case "struct":
+				m = pick(h.r, []string{"idx", "base"})
+			case "ptr":
+				m = pick(h.r, []string{"base", "fld"})
+			}
+			nearMiss = true
+		}
 		if sh.t != nil && sh.t.k == "arr" && h.r.chance(1, 2) {
 			// just past the end of an array, and used right away
 			m, idx, negArr = "idx", sh.t.n+h.r.intn(2), true
@@ -1155,6 +1174,8 @@ func (h *c18hist) genNav() {
 	if negArr && h.haveFn {
 		// use the component obtained with a negative index right away
 		h.loadStoreSlot(len(h.comps)-1, c18comp{sh.t.elem, sh.gp}, false)
+	} else if nearMiss && h.haveFn {
+		h.loadStoreSlot(len(h.comps)-1, h.shadow[len(h.shadow)-1], false)
 	}
 }
 
